@@ -63,7 +63,24 @@ T_dup_idx = T.set_index(pd.Index([0, 0, 1, 1, 1, 2, 3, 3, 4, 5, 5, 5], name="di"
 # "already sorted" fast paths of set_index / sort_values
 T_sorted_dup = T.sort_values("a", kind="stable").reset_index(drop=True)
 
+def make_TL(reps=10):
+    """120-row table (same columns as T): partitions large enough for quantile sampling to
+    depend on its random state."""
+    parts = []
+    for r in range(reps):
+        t = T.copy()
+        t["u"] = [(v * 7 + r * 13 + i * 5) % 997 for i, v in enumerate(t["u"])]
+        t["a"] = t["a"] + (r % 4)
+        parts.append(t)
+    out = pd.concat(parts, ignore_index=True)
+    out["u"] = pd.Series(out["u"]).rank(method="first").astype("int64") * 3 % 1009
+    return out
+
+
+TL = make_TL()
+
 PDFS = {
+    "TL": TL,
     "Tg": T_sorted_dup,
     "T": T,
     "T2": T2,
